@@ -217,3 +217,29 @@ Print Assumptions C17_cache_reduction.
 Theorem C17_two_valued : forall s, is_green (two_valued s) = is_green s.
 Proof. exact two_valued_green. Qed.
 Print Assumptions C17_two_valued.
+
+(* ---- operations of several threads interleaved at the hosts' I/O points (Model/IoCache.v) ---------------------
+   The guards are OBSERVED on the running code (Generated/Facts_C17.v, probe_inflight): the check_suite handler and
+   both get_build_status look at the cache again when the host's answer arrives.  With them, once a (commit, key)
+   cell is SUCCESSFUL no interleaving of events, check_suite writes, polls and arbitrarily late host answers
+   changes it, and every poll that answers, answers SUCCESSFUL. *)
+Require Import BertE.Model.IoCache BertE.Proofs.IoCacheProofs.
+
+Definition observed_guards_github : guards :=
+  {| g_suite := inflight_guard_check_suite; g_poll := inflight_guard_poll_github |}.
+Definition observed_guards_bitbucket : guards :=
+  {| g_suite := inflight_guard_check_suite; g_poll := inflight_guard_poll_bitbucket |}.
+
+Theorem C17_observed_guards : observed_guards_github = all_guarded /\ observed_guards_bitbucket = all_guarded.
+Proof. split; reflexivity. Qed.
+Print Assumptions C17_observed_guards.
+
+Theorem C17_sticky_interleaved : forall l,
+  (fst (io_run observed_guards_github green l) = green /\
+   forall a, In (Some a) (snd (io_run observed_guards_github green l)) -> a = "SUCCESSFUL"%string) /\
+  (fst (io_run observed_guards_bitbucket green l) = green /\
+   forall a, In (Some a) (snd (io_run observed_guards_bitbucket green l)) -> a = "SUCCESSFUL"%string).
+Proof.
+  intros l. destruct C17_observed_guards as [-> ->]. split; exact (io_green_is_sticky l).
+Qed.
+Print Assumptions C17_sticky_interleaved.
